@@ -381,8 +381,10 @@ func runCase(idx int, m *parserMod, rng *rand.Rand) *caseDesc {
 
 // ------------------------------------------------------------------ file datasource
 
+// waitFor polls for up to 30 s (convergence normally takes milliseconds; the bound only matters when it never comes,
+// and a loaded machine must not turn slowness into a verdict)
 func waitFor(cond func() bool) bool {
-	for i := 0; i < 200; i++ {
+	for i := 0; i < 1200; i++ {
 		if cond() {
 			return true
 		}
@@ -486,7 +488,7 @@ func fileScenario(idx int, rng *rand.Rand, dir string) {
 				if evs == 0 {
 					run.Inconclusive("file scenario: control watcher saw no event for step rotate")
 				} else {
-					run.Violation("C18/file/not-converged:rotate", fmt.Sprintf("the watched file was renamed away and a new file moved into place: after 10 s the rules in force are %v, the new file describes %v (control watcher saw %d events)", m.state(), want, evs), desc)
+					run.Violation("C18/file/not-converged:rotate", fmt.Sprintf("the watched file was renamed away and a new file moved into place: after 60 s the rules in force are %v, the new file describes %v (control watcher saw %d events)", m.state(), want, evs), desc)
 				}
 				return
 			}
@@ -552,8 +554,8 @@ func main() {
 	if os.Getenv("VERIF_MODE") == "file" {
 		run = vk.Start("C18", "file")
 		defer run.Finish()
-		run.Rule("scenario = a refreshable file datasource (isolation parser) on a scratch file: initial content, then 2-5 of write / truncate-then-write / write-undecodable / rotate (renamed away, a complete new file moved into place), ended by rename-away or remove; after each event the module state must converge (polled up to 5 s) to the valid rules of the file's current content, or be empty once the file is gone; a control fsnotify watcher owned by the monitor must have seen the event, else the step is inconclusive. distinct = distinct scenarios.")
-		run.Assume("inotify works in the sandbox (control watcher)", "wall-clock polling bound 5 s per step, only counted when the control watcher saw the event")
+		run.Rule("scenario = a refreshable file datasource (isolation parser) on a scratch file: initial content, then 2-5 of write / truncate-then-write / write-undecodable / rotate (renamed away, a complete new file moved into place), ended by rename-away or remove; after each event the module state must converge (polled up to 30 s) to the valid rules of the file's current content, or be empty once the file is gone; a control fsnotify watcher owned by the monitor must have seen the event, else the step is inconclusive. distinct = distinct scenarios.")
+		run.Assume("inotify works in the sandbox (control watcher)", "wall-clock polling bound 30 s per step, only counted when the control watcher saw the event")
 		dir := os.Getenv("VERIF_SCRATCH_DIR")
 		if dir == "" {
 			dir = os.TempDir()
